@@ -85,7 +85,7 @@ type Sim struct {
 	last      *Task
 
 	Quiet    bool // no tape-driven scheduling or faults (setup / audit phases)
-	Policy   int  // 0 uniform, 1 sticky
+	Policy   int  // 0 uniform, 1 sticky, 2 few preemptions (run to completion, 1-3 switches at drawn steps of the episode)
 	Plans    []*FaultPlan
 	seamCnt  map[string]int // per node+kind within episode
 	MaxSteps int
@@ -337,6 +337,8 @@ func (s *Sim) BeginEpisode(plans ...*FaultPlan) {
 // goroutines) unless drain is set, in which case everything runs to quiescence.
 func (s *Sim) Drive(drain bool) {
 	idleSleeps := 0
+	var pctPts map[int]bool
+	contended := 0
 	for {
 		synctest.Wait()
 		p := s.parked()
@@ -368,11 +370,26 @@ func (s *Sim) Drive(drain bool) {
 		}
 		idx := 0
 		if !s.Quiet && len(p) > 1 {
-			if s.Policy == 1 {
+			switch s.Policy {
+			case 1:
 				if s.Tape.Chance("preempt", 1, 4) {
 					idx = 1 + s.Tape.Choose("sched", len(p)-1)
 				}
-			} else {
+			case 2:
+				// PCT-like: the running task keeps running; the episode has d switch points,
+				// drawn (once, lazily) as step numbers counted over the contended steps
+				if pctPts == nil {
+					pctPts = map[int]bool{}
+					d := 1 + s.Tape.Choose("pct.d", 3)
+					for i := 0; i < d; i++ {
+						pctPts[s.Tape.Choose("pct.at", 33)] = true // 0: no switch
+					}
+				}
+				contended++
+				if pctPts[contended] {
+					idx = 1 + s.Tape.Choose("sched", len(p)-1)
+				}
+			default:
 				idx = s.Tape.Choose("sched", len(p))
 			}
 			if idx != 0 {
